@@ -10,6 +10,168 @@ open Konst.ArrayBuilder (mapFrom mapFrom_length mapFrom_id)
 open Konst.Spec.ArrayStd
 variable {α : Type}
 
+
+/-! ### `Clone::clone` with a panicking element `Clone` -/
+
+/-- an element `Clone` that panics on call `j`, started at a call number past `j`: no panic -/
+theorem cup_past (fresh : Nat → α → α) (j : Nat) (l : List α) :
+    ∀ i, j < i → clonesUntilPanic (ArrayBuilder.panicAt fresh j) i l = (mapFrom fresh i l, false) := by
+  induction l with
+  | nil => intro i _; rfl
+  | cons x r ih =>
+    intro i hi
+    have hne : i ≠ j := by omega
+    simp [clonesUntilPanic, ArrayBuilder.panicAt, hne, ih (i + 1) (by omega), mapFrom]
+
+theorem cup_upto (fresh : Nat → α → α) (j : Nat) (l : List α) :
+    ∀ i, i ≤ j → clonesUntilPanic (ArrayBuilder.panicAt fresh j) i l =
+      if j - i < l.length then (mapFrom fresh i (l.take (j - i)), true) else (mapFrom fresh i l, false) := by
+  induction l with
+  | nil => intro i _; rfl
+  | cons x r ih =>
+    intro i hi
+    by_cases he : i = j
+    · subst he
+      simp [clonesUntilPanic, ArrayBuilder.panicAt, mapFrom]
+    · have hlt : i + 1 ≤ j := by omega
+      have hsub : j - i = (j - (i + 1)) + 1 := by omega
+      simp only [clonesUntilPanic, ArrayBuilder.panicAt, he, if_false, ih (i + 1) hlt, List.length_cons]
+      by_cases hj : j - (i + 1) < r.length
+      · have : j - i < r.length + 1 := by omega
+        simp [hj, hsub, mapFrom]
+      · have : ¬ (j - i < r.length + 1) := by omega
+        simp [hj, this, mapFrom]
+
+/-- the independent reference of the histories is what the call-by-call description gives for an
+    element `Clone` panicking on its `j`-th call -/
+theorem cup_panicAt (fresh : Nat → α → α) (j : Nat) (l : List α) :
+    clonesUntilPanic (ArrayBuilder.panicAt fresh j) 0 l = refClonePanic fresh j l := by
+  rw [cup_upto fresh j l 0 (Nat.zero_le _)]
+  simp [refClonePanic]
+
+/-- without a panic every element was copied -/
+theorem cup_length (fresh : Nat → α → Option α) (l : List α) :
+    ∀ i, (clonesUntilPanic fresh i l).2 = false → (clonesUntilPanic fresh i l).1.length = l.length := by
+  induction l with
+  | nil => intro i _; rfl
+  | cons x r ih =>
+    intro i h
+    cases hf : fresh i x with
+    | none => simp [clonesUntilPanic, hf] at h
+    | some v =>
+      simp only [clonesUntilPanic, hf] at h ⊢
+      simp [ih (i + 1) h]
+
+theorem bld_cloneLoopP (fresh : Nat → α → Option α) (l : List α) :
+    ∀ (i : Nat) (this : ArrayBuilder.Builder α) (done : List α), ArrayBuilder.Wf this done →
+      done.length + l.length ≤ this.n →
+      ((clonesUntilPanic fresh i l).2 = true →
+        ArrayBuilder.cloneLoopP fresh l i this = .panicked (done ++ (clonesUntilPanic fresh i l).1)) ∧
+      ((clonesUntilPanic fresh i l).2 = false →
+        ∃ c, ArrayBuilder.cloneLoopP fresh l i this = .done c ∧
+          ArrayBuilder.Wf c (done ++ (clonesUntilPanic fresh i l).1) ∧ c.n = this.n) := by
+  induction l with
+  | nil =>
+    intro i this done h _
+    exact ⟨by simp [clonesUntilPanic], fun _ => ⟨this, rfl, by simpa [clonesUntilPanic] using h, rfl⟩⟩
+  | cons x r ih =>
+    intro i this done h hlen
+    simp only [List.length_cons] at hlen
+    cases hf : fresh i x with
+    | none =>
+      simp [clonesUntilPanic, ArrayBuilder.cloneLoopP, hf, ArrayBuilder.wf_dropped h]
+    | some v =>
+      obtain ⟨b', hp, hw, hn⟩ := ArrayBuilder.wf_push_ok h v (by omega)
+      obtain ⟨g1, g2⟩ := ih (i + 1) b' (done ++ [v]) hw (by simp; omega)
+      simp only [clonesUntilPanic, hf, ArrayBuilder.cloneLoopP, hp]
+      refine ⟨fun hp' => by simpa using g1 hp', fun hp' => ?_⟩
+      obtain ⟨c, hc, hwc, hcn⟩ := g2 hp'
+      exact ⟨c, hc, by simpa using hwc, by omega⟩
+
+theorem bld_cloneP (fresh : Nat → α → Option α) {b : ArrayBuilder.Builder α} {acc : List α}
+    (h : ArrayBuilder.Wf b acc) :
+    ((clonesUntilPanic fresh 0 acc).2 = true →
+      ArrayBuilder.cloneP fresh b = .panicked (clonesUntilPanic fresh 0 acc).1) ∧
+    ((clonesUntilPanic fresh 0 acc).2 = false →
+      ∃ c, ArrayBuilder.cloneP fresh b = .done c ∧ ArrayBuilder.Wf c (clonesUntilPanic fresh 0 acc).1 ∧
+        c.n = b.n) := by
+  have := bld_cloneLoopP fresh acc 0 (ArrayBuilder.new b.n) [] (ArrayBuilder.wf_new b.n)
+    (by simpa [ArrayBuilder.new] using h.1)
+  simpa [ArrayBuilder.cloneP, ArrayBuilder.wf_asSlice h, ArrayBuilder.new] using this
+
+theorem cons_cloneLoopP (fresh : Nat → α → Option α) (l : List α) :
+    ∀ (done : List α) (k : Nat),
+      ((clonesUntilPanic fresh done.length l).2 = true →
+        ArrayConsumer.cloneLoopP fresh l done.length
+          ⟨done.length + l.length + k, done.map some ++ List.replicate (l.length + k) none, 0, l.length + k⟩ =
+          .panicked (done ++ (clonesUntilPanic fresh done.length l).1)) ∧
+      ((clonesUntilPanic fresh done.length l).2 = false →
+        ∃ c, ArrayConsumer.cloneLoopP fresh l done.length
+          ⟨done.length + l.length + k, done.map some ++ List.replicate (l.length + k) none, 0, l.length + k⟩ =
+            .done c ∧
+          c.n = done.length + l.length + k ∧ c.takenFront = 0 ∧ c.takenBack = k ∧
+          c.slots = (done ++ (clonesUntilPanic fresh done.length l).1).map some ++ List.replicate k none) := by
+  induction l with
+  | nil =>
+    intro done k
+    exact ⟨by simp [clonesUntilPanic], fun _ => ⟨_, rfl, by simp, rfl, by simp, by simp [clonesUntilPanic]⟩⟩
+  | cons x r ih =>
+    intro done k
+    cases hf : fresh done.length x with
+    | none =>
+      refine ⟨fun _ => ?_, by simp [clonesUntilPanic, hf]⟩
+      have hsl : ArrayConsumer.sliceLen (⟨done.length + (x :: r).length + k,
+          done.map some ++ List.replicate ((x :: r).length + k) none, 0, (x :: r).length + k⟩ :
+            ArrayConsumer.Consumer α) = done.length := by
+        simp only [ArrayConsumer.sliceLen, List.length_cons]; omega
+      simp only [clonesUntilPanic, hf, ArrayConsumer.cloneLoopP, ArrayConsumer.dropped, hsl,
+        List.drop_zero, List.append_nil]
+      rw [List.take_left' (by simp), ArrayBuilder.readInit_map_some]
+    | some v =>
+      obtain ⟨g1, g2⟩ := ih (done ++ [v]) k
+      have hstate : ({ (⟨done.length + (x :: r).length + k,
+            done.map some ++ List.replicate ((x :: r).length + k) none, 0, (x :: r).length + k⟩ :
+              ArrayConsumer.Consumer α) with
+            slots := (done.map some ++ List.replicate ((x :: r).length + k) none).set done.length (some v),
+            takenBack := (x :: r).length + k - 1 } : ArrayConsumer.Consumer α) =
+          ⟨(done ++ [v]).length + r.length + k,
+            (done ++ [v]).map some ++ List.replicate (r.length + k) none, 0, r.length + k⟩ := by
+        simp only [List.length_cons, List.length_append, List.length_nil]
+        congr 1
+        · omega
+        · have : r.length + 1 + k = (r.length + k) + 1 := by omega
+          rw [this, List.replicate_succ, List.set_append_right _ _ (by simp)]
+          simp
+        · omega
+      simp only [clonesUntilPanic, hf, ArrayConsumer.cloneLoopP]
+      rw [hstate]
+      have hlen : (done ++ [v]).length = done.length + 1 := by simp
+      rw [← hlen]
+      refine ⟨fun hp' => by simpa using g1 hp', fun hp' => ?_⟩
+      obtain ⟨c, hc, h1, h2, h3, h4⟩ := g2 hp'
+      exact ⟨c, hc, by simp at h1 ⊢; omega, h2, h3, by simpa using h4⟩
+
+theorem cons_cloneP (fresh : Nat → α → Option α) {c : ArrayConsumer.Consumer α} {rem : List α}
+    (h : ArrayConsumer.Wf c rem) :
+    ((clonesUntilPanic fresh 0 rem).2 = true →
+      ArrayConsumer.cloneP fresh c = .panicked (clonesUntilPanic fresh 0 rem).1) ∧
+    ((clonesUntilPanic fresh 0 rem).2 = false →
+      ∃ c', ArrayConsumer.cloneP fresh c = .done c' ∧
+        ArrayConsumer.Wf c' (clonesUntilPanic fresh 0 rem).1 ∧ c'.n = c.n) := by
+  have ha : ArrayConsumer.asSlice c = some rem := ArrayConsumer.wf_asSlice h
+  have hl := ArrayConsumer.wf_sliceLen h
+  obtain ⟨pre, post, hs, hp, hq, hn⟩ := h
+  have hk : c.n = rem.length + (pre.length + post.length) := by omega
+  obtain ⟨g1, g2⟩ := cons_cloneLoopP fresh rem [] (pre.length + post.length)
+  simp only [List.length_nil, Nat.zero_add, List.map_nil, List.nil_append] at g1 g2
+  simp only [ArrayConsumer.cloneP, ha, hk]
+  refine ⟨g1, fun hp' => ?_⟩
+  obtain ⟨c', hc, h1, h2, h3, h4⟩ := g2 hp'
+  refine ⟨c', hc, ⟨[], List.replicate (pre.length + post.length) none, by simpa using h4, by simp [h2],
+    by simp [h3], ?_⟩, by omega⟩
+  have hcl := cup_length fresh rem 0 hp'
+  simp [hcl]; omega
+
 /-! ### builder -/
 
 theorem bld_step (fresh : Nat → α → α) {b : ArrayBuilder.Builder α} {acc : List α} (k : Nat)
@@ -31,6 +193,17 @@ theorem bld_step (fresh : Nat → α → α) {b : ArrayBuilder.Builder α} {acc 
   | cloneDrop =>
     obtain ⟨c, hc, hw, hn⟩ := ArrayBuilder.wf_clone (fun i => fresh (k + i)) h
     simp [ArrayBuilder.step, bvStep, hc, ArrayBuilder.wf_dropped hw, h, h.2.1]
+  | clonePanic j =>
+    have hcp := cup_panicAt (fun i => fresh (k + i)) j acc
+    obtain ⟨g1, g2⟩ := bld_cloneP (ArrayBuilder.panicAt (fun i => fresh (k + i)) j) h
+    rw [hcp] at g1 g2
+    by_cases hj : j < acc.length
+    · have hp := g1 (by simp [refClonePanic, hj])
+      simp only [refClonePanic, hj, if_true] at hp
+      simp [ArrayBuilder.step, bvStep, hp, refClonePanic, hj, h]
+    · obtain ⟨c, hc, hw, hn⟩ := g2 (by simp [refClonePanic, hj])
+      simp only [refClonePanic, hj, if_false] at hw
+      simp [ArrayBuilder.step, bvStep, hc, ArrayBuilder.wf_dropped hw, refClonePanic, hj, h, h.2.1]
 
 theorem bld_run (fresh : Nat → α → α) (ops : List (ArrayBuilder.Op α)) :
     ∀ (b : ArrayBuilder.Builder α) (acc : List α) (k : Nat), ArrayBuilder.Wf b acc →
@@ -81,6 +254,9 @@ theorem bvRun_values (n : Nat) (ops : List (ArrayBuilder.Op α)) :
     | cloneDrop =>
       simp only [bvRun, bvStep, pushes]
       exact ih acc _ h
+    | clonePanic j =>
+      simp only [bvRun, bvStep, pushes]
+      exact ih acc _ h
 
 /-! ### consumer -/
 
@@ -108,6 +284,18 @@ theorem cons_step (fresh : Nat → α → α) {c : ArrayConsumer.Consumer α} {r
   | cloneDrop =>
     obtain ⟨c', hc, hw, _⟩ := ArrayConsumer.wf_clone (fun i => fresh (k + i)) h
     simp [ArrayConsumer.step, dqStep, hc, ArrayConsumer.wf_dropped hw, h, ArrayConsumer.wf_sliceLen h]
+  | clonePanic j =>
+    have hcp := cup_panicAt (fun i => fresh (k + i)) j rem
+    obtain ⟨g1, g2⟩ := cons_cloneP (ArrayBuilder.panicAt (fun i => fresh (k + i)) j) h
+    rw [hcp] at g1 g2
+    by_cases hj : j < rem.length
+    · have hp := g1 (by simp [refClonePanic, hj])
+      simp only [refClonePanic, hj, if_true] at hp
+      simp [ArrayConsumer.step, dqStep, hp, refClonePanic, hj, h]
+    · obtain ⟨c', hc, hw, hn⟩ := g2 (by simp [refClonePanic, hj])
+      simp only [refClonePanic, hj, if_false] at hw
+      simp [ArrayConsumer.step, dqStep, hc, ArrayConsumer.wf_dropped hw, refClonePanic, hj, h,
+        ArrayConsumer.wf_sliceLen h]
 
 theorem cons_run (fresh : Nat → α → α) (ops : List ArrayConsumer.Op) :
     ∀ (c : ArrayConsumer.Consumer α) (rem : List α) (k : Nat), ArrayConsumer.Wf c rem →
